@@ -3,6 +3,7 @@ import importlib
 
 _MODULES = [
     "c01_chunking",
+    "c02_pipeline",
     "c09_body_stream",
 ]
 
